@@ -909,6 +909,28 @@ func (c *lchain) oraclesAfterApply(cs, ns consensus.State, b types.Block, bs con
 			created[d.SiacoinElement.ID] = d.SiacoinElement
 		}
 	}
+	// membership after the block (C04): an output created and spent inside this block must be in the new accumulator
+	// as a spent leaf only; presenting it as unspent must not verify
+	spentHere := map[types.SiacoinOutputID]bool{}
+	for _, txn := range b.Transactions {
+		for _, in := range txn.SiacoinInputs {
+			spentHere[in.ParentID] = true
+		}
+	}
+	for _, txn := range b.V2Transactions() {
+		for _, in := range txn.SiacoinInputs {
+			spentHere[in.Parent.ID] = true
+		}
+	}
+	for _, d := range au.SiacoinElementDiffs() {
+		if d.Created && spentHere[d.SiacoinElement.ID] {
+			e := d.SiacoinElement.Copy()
+			r.count("oracle-ephemeral-leaf")
+			if !d.Spent || consensus.VerifContainsLeaf(&ns.Elements, consensus.VerifSiacoinLeaf(&e, false)) {
+				r.violate("c04.spent-output-is-live-leaf", "siacoin output %v was created and spent in block %d, yet it is a live (unspent) member of the new accumulator at leaf %d (diff: created=%v spent=%v)", e.ID, ns.Index.Height, e.StateElement.LeafIndex, d.Created, d.Spent)
+			}
+		}
+	}
 	// claims: exact share, and accumulate what was paid
 	pool := cs.SiafundTaxRevenue
 	check := func(parent types.SiafundElement, cid types.SiacoinOutputID, poolAtSpend types.Currency, addr types.Address) {
